@@ -6,7 +6,7 @@ from .common import *
 
 # token indices (0 = op) holding hex payloads / payload lists, per op: used by the shrinker
 PAYLOAD = {"kg": [2], "mg": [3], "kmg": [3], "oligo": [3], "covrow": [6], "cgr": [2], "ocgr": [4],
-           "ofile": [10], "osched": [6], "cgrfile": [5], "ocgrfile": [7], "ctr": [6], "cov": [9, 10], "s2m": [5], "m2s": [5], "read": [], "readc": [2], "cli": [4, 5], "hist": [],
+           "ofile": [10], "osched": [6], "cgrfile": [5], "ocgrfile": [7], "ctr": [6], "cov": [9, 10], "s2m": [5], "m2s": [5], "read": [], "readc": [2], "ctrfs": [4], "cli": [4, 5], "hist": [],
            "py:kg": [2], "py:mg": [3], "py:oligo": [3], "py:cgr": [2], "hooks": [], "csched": [], "msched": []}
 
 BASE_TRUSTED = [
@@ -25,11 +25,32 @@ def valid_case(case):
     cont = {"ofile": 8, "cgrfile": 4, "ocgrfile": 6, "ctr": 5, "cov": 8, "s2m": 4, "m2s": 4, "cli": 3}.get(p[0])
     recs = {"ofile": 10, "cgrfile": 5, "ocgrfile": 7, "ctr": 6, "cov": 9, "s2m": 5, "m2s": 5, "cli": 4}.get(p[0])
     if p[0] == "hooks": return valid_case(" ".join(p[1:]))
+    if p[0] == "ctrfs": return len(p) == 5 and ctrfs_ok(sum(len(x) // 2 for x in p[4].split(",") if x not in ("-", "_")), int(p[2]))
     if p[0] == "hist":
         return all(valid_case("cli " + " ".join(p[i:i + 5])) for i in range(2, len(p), 5))
     if cont is not None and len(p) > max(cont, recs) and p[cont].startswith("fq"):
         if any(x == "-" for x in p[recs].split(",")): return False
     return True
+
+
+def ctrfs_ok(total_len, limit):
+    """the partition count of `ctrfs` is modelled in exact arithmetic: stay away from the points where the binary64
+    evaluation of ceil(8 * (L / 2^30) / (2 * mem)) could round differently"""
+    from fractions import Fraction
+    q = Fraction(total_len * 10 ** 9, 2 ** 30 * (2 * limit + 1))
+    return total_len == 0 or abs(q - round(q)) > Fraction(1, 10 ** 6)
+
+
+def gen_ctrfs(r, n):
+    """the counter's files: one worker, chunk passes by the budget rule, with and without the files of a bigger earlier run"""
+    cases = []
+    while len(cases) < n:
+        k = r.pick([1, 2, 3, 5, 11])
+        recs = gen_records(r, k, nmax=8, maxlen=40)
+        limit = r.pick([0, 1, 3, 5, 10, 20, 50, 1000, 10 ** 6])
+        if not ctrfs_ok(sum(len(x) for x in recs), limit): continue
+        cases.append("ctrfs %d %d %d %s" % (k, limit, r.below(2), hxlist(recs)))
+    return cases
 
 
 def corpus_lines(prop):
@@ -493,6 +514,7 @@ def gen_C07(r, tier):
         limit = r.pick([0, 1, 5, 10, 20, 1000])
         prefix = [r.below(W) for _ in range(r.below(60))]
         cases.append(csched_case(W, recs, k, limit, prefix))
+    cases += gen_ctrfs(r, {"quick": 60, "thorough": 600}[tier])
     if tier == "thorough":
         import itertools
         for W, R in ((2, 2), (2, 3)):
@@ -944,6 +966,7 @@ def gen_C17(r, tier):
             if sub == "ctr": d.update({"k": r.pick([10, 12]), "m": None})
             runs.append("%s %s %s %s %s" % (sub, st(d), cont, hxlist(recs), hxlist(alt) if alt is not None else "_"))
         cases.append("hist %d %s" % (r.below(2), " ".join(runs)))
+    cases += gen_ctrfs(r, {"quick": 60, "thorough": 600}[tier])
     return cases
 
 
@@ -1100,7 +1123,7 @@ PROPS = {
                 assumptions=["the DEFLATE codec itself is not modelled (only the member structure)", "bio 2.0.3's parsers are third-party code, modelled from their source and validated here",
                              "non-UTF-8 input is outside 'well-formed' and never generated"]),
     "C07": dict(gen=gen_C07, needs=["harness"], sample_limit={"quick": 32, "thorough": 96}, sample_maxlen=700,
-                rule="file level: seeded record lists (incl. highly repetitive ones) x k {1,2,3,5,10,15,21,31} x threads x memory ceilings from 6 GB down to 1e-8 GB (one chunk to dozens of chunks and partitions) x acgt x container; the sorted lines of kmers.counts and the number of surviving temp files are compared with the model (partitioned counting + merge) and the spec (multiset of canonical k-mers); then controlled-scheduler replays of count() through the hooks (W<=3 workers, R<=5 records, limits 0..1000 so that runs take 1..R+1 chunk passes; random schedule prefix + round-robin tail): the logged CHECK/TAKE/INC/ADD/EXIT trace and the content of every chunk pass must equal the Coq schedule model's; thorough enumerates all 2^10 schedule prefixes for (W,R) in {(2,2),(2,3)}; non-trivial = at least one k-mer counted",
+                rule="file level: seeded record lists (incl. highly repetitive ones) x k {1,2,3,5,10,15,21,31} x threads x memory ceilings from 6 GB down to 1e-8 GB (one chunk to dozens of chunks and partitions) x acgt x container; the sorted lines of kmers.counts and the number of surviving temp files are compared with the model (partitioned counting + merge) and the spec (multiset of canonical k-mers); then controlled-scheduler replays of count() through the hooks (W<=3 workers, R<=5 records, limits 0..1000 so that runs take 1..R+1 chunk passes; random schedule prefix + round-robin tail): the logged CHECK/TAKE/INC/ADD/EXIT trace and the content of every chunk pass must equal the Coq schedule model's; thorough enumerates all 2^10 schedule prefixes for (W,R) in {(2,2),(2,3)}; `ctrfs` cases as for C17 (the files of the counter against the file-level model); non-trivial = at least one k-mer counted",
                 assumptions=["scc entry().and_modify().or_insert() and AtomicU64 operations are atomic steps", "total windows < 2^32 (u32 counts)"]),
     "C10": dict(gen=gen_C10, needs=["harness"], sample_limit={"quick": 32, "thorough": 96}, sample_maxlen=700, extra=extra_C10,
                 rule="file level: seeded record lists (shared minimisers, reads starting with N, reads shorter than m, empty reads) x m {1,2,3,5,7,10,15,28} x w = 0 or m+1..m+20 x threads x container; s2m lines compared as a set, m2s lines as a set with lists as multisets, both against model and spec; on the implementation m2s must be the exact inversion of s2m; then controlled-scheduler replays of both loops through the hooks (W<=3 workers, R<=6 records, random schedule prefix + round-robin tail): the logged TAKE / PUSH / WRITE / EXIT trace and the resulting lines must equal the Coq schedule model's; thorough enumerates all 2^10 schedule prefixes for (W,R) in {(2,2),(2,3)}; non-trivial = at least one line",
@@ -1132,8 +1155,8 @@ PROPS = {
                 nontrivial=lambda c, o: o.startswith("exit=0|") or (not c.startswith("cli") and not o.startswith(("PANIC", "CRASH", "NOT-RUN"))),
                 assumptions=["runtime aborts and hangs not caused by the modelled logic (allocation failure, poisoned locks) are outside the model"]),
     "C17": dict(gen=gen_C17, needs=["harness", "cli"], to_spec=to_spec_cli, sample_filter=lambda c: len(c) < 600 and " cov " not in c and " ctr " not in c, sample_limit={"quick": 16, "thorough": 60}, sample_maxlen=900,
-                rule="histories of two or three accepted runs of one subcommand (different inputs, k, thread counts, presets) sharing one output location, half of them with stale temp chunk files of a bigger run (20 partitions x 4 chunks), a stale kmers.counts and a longer stale kmers.vectors planted before the last run; the result files after the last run are compared with the model/spec of the last run alone (i.e. a fresh location); non-trivial = output produced",
-                nontrivial=lambda c, o: o.startswith("exit=0|") and not o.endswith(("NOOUT", "|")),
+                rule="histories of two or three accepted runs of one subcommand (different inputs, k, thread counts, presets) sharing one output location, half of them with stale temp chunk files of a bigger run (20 partitions x 4 chunks), a stale kmers.counts and a longer stale kmers.vectors planted before the last run; the result files after the last run are compared with the model/spec of the last run alone (i.e. a fresh location); then `ctrfs`: the counter (one worker, budgets 0..10^6 k-mers per chunk pass) in a directory that is empty or holds those stale files - the partition and chunk counts, every file of the directory after count() and every file after merge(true) are compared with the file-level model of the counter (Model/CtrFs.v: names, text, read-back, removal) and with the spec (stale files that are not this run's temp files untouched, own temp files gone, counts = the specified table); non-trivial = output produced",
+                nontrivial=lambda c, o: (o.startswith("exit=0|") and not o.endswith(("NOOUT", "|"))) or (c.startswith("ctrfs ") and "counts=" in o and not o.endswith("counts=") and not o.endswith("counts=;vectors")),
                 assumptions=["File::create / truncate + set_len / unlink behave as POSIX says (OS semantics are not modelled)"]),
     "C18": dict(gen=gen_C18, needs=["harness"], extra=extra_C18, to_spec=to_spec_C18,
                 rule="seeded (w, m, sequence) with m <= w <= 31 as for C09; each sequence goes through the k-mer+minimiser iterator, the plain minimiser iterator and the k-mer iterator; non-trivial = at least one run; relations checked on the implementation's outputs: identical runs, k-mer lists concatenate to the canonical w-mers",
